@@ -4,6 +4,7 @@ import MimicProofs.Reply
 import MimicProofs.Wire
 import MimicProofs.PacketsCode
 import Mimic.Extracted.Handlers
+import Mimic.Extracted.Protocol
 /-!
 # C03 — Every command gets exactly one complete, well-formed response (lockstep)
 
@@ -469,5 +470,27 @@ theorem handler_skeletons : Mimic.Extracted.Handlers.skeletons = [
       ("text_resultset", "YIELD(colcount) LOOP(result_set.columns)[YIELD(coldef)] IF(not self.deprecate_eof())[YIELD(eof)]ELSE[] LOOP(cooperative_iterate(aiterate(result_set.rows)))[YIELD(row)] YIELD(term)"),
       ("com_stmt_prepare_response", "YIELD(prepok) IF(statement.num_params)[LOOP(range(statement.num_params))[YIELD(coldef)] IF(not self.deprecate_eof())[YIELD(eof)]ELSE[]]ELSE[]")] := by
   rfl
+
+/-- **command codes, capability bits, status bits and execute flags are the protocol's** for every constant the server
+    acts on: the commands it dispatches, every capability flag (the handshake announces and tests them by position), the
+    status bits it sets, the cursor flags it reads -/
+theorem protocol_constants :
+    (["COM_QUIT", "COM_INIT_DB", "COM_QUERY", "COM_FIELD_LIST", "COM_DEBUG", "COM_PING", "COM_CHANGE_USER", "COM_STMT_PREPARE",
+      "COM_STMT_EXECUTE", "COM_STMT_SEND_LONG_DATA", "COM_STMT_CLOSE", "COM_STMT_RESET", "COM_STMT_FETCH", "COM_RESET_CONNECTION"].map
+        (fun n => Mimic.Extracted.Protocol.commands.lookup n)) =
+      [some 1, some 2, some 3, some 4, some 13, some 14, some 17, some 22, some 23, some 24, some 25, some 26, some 28, some 31] ∧
+    Mimic.Extracted.Protocol.capabilities.map (·.2) = (List.range 32).map (fun k => 2 ^ k) ∧
+    (Mimic.Extracted.Protocol.capabilities.map (·.1)).take 28 =
+      ["CLIENT_LONG_PASSWORD", "CLIENT_FOUND_ROWS", "CLIENT_LONG_FLAG", "CLIENT_CONNECT_WITH_DB", "CLIENT_NO_SCHEMA", "CLIENT_COMPRESS",
+       "CLIENT_ODBC", "CLIENT_LOCAL_FILES", "CLIENT_IGNORE_SPACE", "CLIENT_PROTOCOL_41", "CLIENT_INTERACTIVE", "CLIENT_SSL",
+       "CLIENT_IGNORE_SIGPIPE", "CLIENT_TRANSACTIONS", "CLIENT_RESERVED", "CLIENT_SECURE_CONNECTION", "CLIENT_MULTI_STATEMENTS",
+       "CLIENT_MULTI_RESULTS", "CLIENT_PS_MULTI_RESULTS", "CLIENT_PLUGIN_AUTH", "CLIENT_CONNECT_ATTRS",
+       "CLIENT_PLUGIN_AUTH_LENENC_CLIENT_DATA", "CLIENT_CAN_HANDLE_EXPIRED_PASSWORDS", "CLIENT_SESSION_TRACK", "CLIENT_DEPRECATE_EOF",
+       "CLIENT_OPTIONAL_RESULTSET_METADATA", "CLIENT_ZSTD_COMPRESSION_ALGORITHM", "CLIENT_QUERY_ATTRIBUTES"] ∧
+    (["SERVER_STATUS_IN_TRANS", "SERVER_STATUS_AUTOCOMMIT", "SERVER_MORE_RESULTS_EXISTS", "SERVER_STATUS_CURSOR_EXISTS",
+      "SERVER_STATUS_LAST_ROW_SENT"].map (fun n => Mimic.Extracted.Protocol.serverStatus.lookup n)) = [some 1, some 2, some 8, some 64, some 128] ∧
+    (["CURSOR_TYPE_READ_ONLY", "PARAMETER_COUNT_AVAILABLE"].map (fun n => Mimic.Extracted.Protocol.executeFlags.lookup n))
+      = [some 1, some 8] := by
+  decide +kernel
 
 end MimicProps.C03
